@@ -21,6 +21,32 @@ CHECKS = {
         design="5/C01",
         technique="TLA+ spec N2KCodec evaluated by TLC on recorded decodes of all generated decoders (record validation, sharded)",
     ),
+    "C02": dict(
+        level="translation_validation",
+        text=("For each of the 263 definitions the database predicate Encodable admits, every payload of the C01 boundary/random "
+              "corpus that the real decoder accepts is re-encoded through the public encoder and TLC compares the two payloads "
+              "field by field (exact up to 48 bits, 2^-48 relative above), plus the payload length. An every-code sweep of all "
+              "fields of <= 16 bits (all codes in the thorough tier, a stride plus all codes of fields <= 9 bits in the quick "
+              "tier) counts byte-identical round trips and sends every other one to TLC. MC_EncodeLaws checks the specification's "
+              "encode operators against TLC integers (decode-then-encode is the identity on every non-sentinel code, widths <= 8/9)."),
+        note=("Trusted: TLC; byte-identical round trips in the sweep are accepted without TLC. Definitions that never encode are "
+              "reported as DRIFT and leave the domain (gate: at most 10%). One known finding (64-bit altitude at 2^63-2)."),
+        design="5/C02",
+        technique="TLA+ spec N2KCodec; TLC record validation of decode->encode round trips over all encodable generated codecs",
+    ),
+    "C09": dict(
+        level="translation_validation",
+        text=("For each encodable definition a base request and single-field variations (range ends, between steps, exact half "
+              "step, absent, one step beyond each representable end, far out, wrap-around candidates, negative for unsigned, "
+              "NaN/inf, too-wide and negative codes, one field removed) are given to the real encoder. Requested numbers are "
+              "described exactly (floor and fraction class). TLC decides per output: allowed codes per field (AllowedTicks), "
+              "must-refuse cases (unrepresentable, missing, non-finite, too wide), not-available preserved, and locality against "
+              "the base payload. MC_EncodeLaws checks the operators used (SMInc, Representable, AllowedTicks, inverse law)."),
+        note=("Trusted: TLC; a fraction within double rounding of one half counts as a tie; wide (>50 bit) values to 2^-48. "
+              "Known findings (6 keys): LOOKUP/RESERVED/DATE codes that are too wide or negative are masked silently."),
+        design="5/C09",
+        technique="TLA+ spec N2KCodec (AllowedTicks/Representable); TLC record validation of encoder outputs for boundary requests",
+    ),
     "C08": dict(
         level="translation_validation",
         text=("TLC checks N2KCodec!Select on the real database for all 163 definitions of the 25 multi-definition PGNs "
